@@ -1362,7 +1362,11 @@ pub fn run_live(seed: u64, run_no: u64, nwriters: usize, nreaders: usize, ops: u
         Arc::new(SinkObserver {
             sink: Arc::clone(&sink),
             want_contents: false,
-            ctl: None,
+            ctl: if crate::common::JITTER_PERMILLE.load(std::sync::atomic::Ordering::Relaxed) > 0 {
+                Some(Arc::new(crate::common::Jitter::new(seed)) as Arc<dyn Controller>)
+            } else {
+                None
+            },
             lazy_gets: Mutex::new(Default::default()),
             bg_active: std::sync::atomic::AtomicBool::new(true),
             mute: vec![
@@ -1531,6 +1535,8 @@ pub fn cmd_live(m: &HashMap<String, String>) -> i32 {
     let seed0: u64 = crate::arg_of(m, "seed", 1);
     let runs: u64 = crate::arg_of(m, "runs", 1);
     let ops: usize = crate::arg_of(m, "ops", 120);
+    let jitter: u64 = crate::arg_of(m, "jitter", 0);
+    crate::common::JITTER_PERMILLE.store(jitter, std::sync::atomic::Ordering::SeqCst);
     let mut results = vec![];
     for (i, seed) in (seed0..seed0 + runs).enumerate() {
         let nw = 1 + (seed % 3) as usize;
@@ -1543,12 +1549,17 @@ pub fn cmd_live(m: &HashMap<String, String>) -> i32 {
         let rpath = out.join(format!("replay_{}.json", seed));
         std::fs::write(
             &rpath,
-            serde_json::to_string(&json!({"driver": "live", "seed": seed, "ops": ops})).unwrap(),
+            serde_json::to_string(&json!({"driver": "live", "seed": seed, "ops": ops, "jitter": jitter}))
+                .unwrap(),
         )
         .unwrap();
+        let waits: serde_json::Map<String, serde_json::Value> = crate::common::take_waits()
+            .into_iter()
+            .map(|(k, v)| (k.to_string(), json!(v)))
+            .collect();
         results.push(json!({"seed": seed, "status": o.status, "events": lines.len(),
             "trace": path.to_string_lossy(), "replay": rpath.to_string_lossy(),
-            "panics": Vec::<String>::new()}));
+            "waits": waits, "panics": Vec::<String>::new()}));
         if o.status == "hang" {
             std::fs::write(
                 out.join("results.json"),
